@@ -70,6 +70,9 @@ func buildQuery(vc *VC, o *Obligation) string {
 		sb.WriteString("(assert " + a + ")\n")
 	}
 	for _, a := range vc.asserts {
+		if o.Kind == "reach" && (strings.Contains(a, "(forall ") || strings.Contains(a, "(exists ")) {
+			continue // quantifier-free approximation of the context: decidable reachability cover
+		}
 		sb.WriteString("(assert " + a + ")\n")
 	}
 	for _, hy := range o.Hyps {
@@ -123,6 +126,28 @@ func verifyFunction(P *Program, CS *ContractSet, L *Layout, ct *FuncContract, op
 	if len(retGuards) > 0 {
 		vc.addObl(&Obligation{Name: vc.key + "/vacuity", Kind: "vacuity", Goal: or(retGuards...), Expect: "sat", Src: "requires and assumed facts are satisfiable and some return is reachable"})
 	}
+	// reachability covers: every distinct path condition under which something is proved must be
+	// satisfiable together with the quantifier-free part of the context; `unsat` means the
+	// obligations under that condition hold vacuously (an inconsistent contract or assumption).
+	seenGuard := map[string]bool{}
+	nObl := len(vc.obls)
+	for i := 0; i < nObl; i++ {
+		o := vc.obls[i]
+		if o.Kind == "vacuity" || o.Kind == "target" || o.Kind == "frame" || !strings.HasPrefix(o.Goal, "(=> ") {
+			continue
+		}
+		parts := splitSexp(o.Goal[4 : len(o.Goal)-1])
+		if len(parts) != 2 || seenGuard[parts[0]] {
+			continue
+		}
+		g := parts[0]
+		seenGuard[g] = true
+		if strings.Contains(g, "q_") {
+			continue // mentions skolem constants of that obligation
+		}
+		vc.addObl(&Obligation{Name: fmt.Sprintf("%s/reach#%d", vc.key, len(seenGuard)), Kind: "reach", Goal: g, Expect: "sat",
+			Src: "path condition of " + o.Name + " is satisfiable (quantifier-free part of the context)"})
+	}
 	fr.GenMS = time.Since(t0).Milliseconds()
 	fr.Notes = sortedKeys(vc.notes)
 	fr.Assumed = sortedKeys(vc.assumed)
@@ -139,10 +164,10 @@ func verifyFunction(P *Program, CS *ContractSet, L *Layout, ct *FuncContract, op
 		go func(o *Obligation, rep *OblReport) {
 			defer wg.Done()
 			to := opts.Timeout
-			if o.Kind == "vacuity" && to > 10 {
+			if (o.Kind == "vacuity" || o.Kind == "reach") && to > 10 {
 				to = 10
 			}
-			res := RunSolvers(rep.File, to, opts.All && o.Kind != "vacuity")
+			res := RunSolvers(rep.File, to, opts.All && o.Kind != "vacuity" && o.Kind != "reach")
 			rep.Solver, rep.MS, rep.Output, rep.All = res.Solver, res.MS, res.Output, res.All
 			switch {
 			case res.Verdict == "disagree":
@@ -320,6 +345,7 @@ func finishCheck(opts CheckOpts, CS *ContractSet, reports []*FuncReport, assumed
 	known := map[string]bool{}
 	var solverMS int64
 	byBackend := map[string]int{}
+	var deadReports, infeasible []string
 	replayDir := filepath.Join("/verif/replays", opts.Prop)
 	_ = os.RemoveAll(replayDir)
 	for _, fr := range reports {
@@ -333,8 +359,28 @@ func finishCheck(opts CheckOpts, CS *ContractSet, reports []*FuncReport, assumed
 		for _, a := range fr.Assumed {
 			assumed["contract (not verified here) "+a] = true
 		}
+		// infeasible path conditions: allowed up to the number the contract declares (dead-paths N,
+		// each reviewed: a branch the contracts rule out); one more means some assumption or
+		// contract became inconsistent on a path and everything proved there is vacuous
+		deadAllowed, deadSeen := 0, 0
+		if c, ok := CS.Funcs[fr.Key]; ok {
+			deadAllowed = c.DeadPaths
+		}
 		for _, o := range fr.Obls {
-			if o.Kind == "vacuity" {
+			if o.Kind == "reach" && o.Verdict == "vacuous" {
+				deadSeen++
+			}
+		}
+		if deadSeen != deadAllowed {
+			deadReports = append(deadReports, fmt.Sprintf("%s: %d infeasible path conditions, contract declares dead-paths %d", fr.Key, deadSeen, deadAllowed))
+		}
+		for _, o := range fr.Obls {
+			if o.Kind == "reach" && o.Verdict == "vacuous" && deadSeen <= deadAllowed {
+				infeasible = append(infeasible, o.Src)
+				table = append(table, o)
+				continue
+			}
+			if o.Kind == "vacuity" || o.Kind == "reach" {
 				if o.Verdict == "vacuous" {
 					violations++
 					rp := writeReplay(replayDir, opts.Prop, o)
@@ -405,6 +451,8 @@ func finishCheck(opts CheckOpts, CS *ContractSet, reports []*FuncReport, assumed
 			"load_ms":                  loadMS,
 			"dropped_by_translation":   sortedKeys(notes),
 			"known_findings_seen":      knownSeen,
+			"infeasible_path_conditions_declared_dead": infeasible,
+			"dead_path_mismatches":     deadReports,
 			"contract_files":           relFiles(CS.Files),
 		},
 		"assumptions": append(sortedKeys(assumed), standingAssumptions()...),
@@ -426,7 +474,7 @@ func knownSeenObls(reports []*FuncReport, fs []Finding, prop string) []string {
 	var out []string
 	for _, fr := range reports {
 		for _, o := range fr.Obls {
-			if o.Kind == "vacuity" || o.Verdict == "discharged" || o.Verdict == "tool-error" {
+			if o.Kind == "vacuity" || o.Kind == "reach" || o.Verdict == "discharged" || o.Verdict == "tool-error" {
 				continue
 			}
 			if matchFinding(fs, prop, o.Canon) != nil {
